@@ -11,9 +11,13 @@ from .skeletons import shape
 EVID = "/verif/evidence" if not symx.SHADOW else os.path.join(symx.BUILD, "evidence")
 
 
-def values_record(sk, values):
+def values_record(sk, values, leaf=None):
     r = dict(sk)
     r["values"] = values
+    ch = ((leaf or {}).get("extra") or {}).get("choices")
+    if ch is not None:
+        r = dict(r)
+        r["opts"] = dict(r["opts"], choices=ch)
     return r
 
 
@@ -27,6 +31,7 @@ def run_property(spec, tier, seed):
     pid = spec["id"]
     hp = spec.get("harness_prop", pid)
     t0 = time.time()
+    symx.HOOK = bool(spec.get("hook"))
     try:
         bt = symx.build_all()
     except symx.BuildError as e:
@@ -85,7 +90,7 @@ def run_property(spec, tier, seed):
             if vals is None or not ob["m"]:
                 not_reproduced.append((lf, ob, "model not rational / absent"))
                 continue
-            recs.append(values_record(by_id[lf["sk"]], vals))
+            recs.append(values_record(by_id[lf["sk"]], vals, lf))
             idx.append((lf, ob))
         res = symx.run_replay(hp, recs, pid)
         replayed += len(res)
@@ -117,7 +122,7 @@ def run_property(spec, tier, seed):
             # real Decimal, and a path that sits on an equality then diverges by decimal residue (outside the claim)
             if vals is None or any("/" in v or len(v.partition(".")[2]) > 6 for v in vals.values()):
                 continue
-            recs.append(values_record(by_id[lf["sk"]], vals))
+            recs.append(values_record(by_id[lf["sk"]], vals, lf))
             keep.append(lf)
         res = symx.run_replay(hp, recs, pid + "-wit")
         for lf, rec, rr in zip(keep, recs, res):
